@@ -108,6 +108,10 @@ def gen_case(rng, tier, idx):
     all_events = rng.random() < 0.7
     cfg["EvShock"] = {"class": "FundamentalPriceShock", "target": names[0], "triggerTime": rng.randint(0, 10),
                       "priceChangeRate": rng.choice([-0.1, 0.05]), "shockTimeLength": rng.choice([1, 2])}
+    if rng.random() < 0.5:
+        # event blocks inherit through 'extends' as market and agent blocks do
+        cfg["EvShockBase"] = {k: v for k, v in cfg["EvShock"].items() if k != "triggerTime"}
+        cfg["EvShock"] = {"extends": "EvShockBase", "triggerTime": cfg["EvShock"]["triggerTime"]}
     cfg["EvMistake"] = {"class": "OrderMistakeShock", "target": names[1], "triggerTime": rng.randint(0, 10),
                         "priceChangeRate": rng.choice([-0.05, 0.05]), "orderVolume": 50, "orderTimeLength": 20}
     cfg["EvLimit"] = {"class": "PriceLimitRule", "targetMarkets": [names[0]], "triggerChangeRate": 0.2}
